@@ -20,6 +20,8 @@ static mut G_EXPIRED: Uq<bool> = Uq { magic: 0x6C72760088E791ED, v: false }; // 
 static mut G_INFLIGHT: Uq<bool> = Uq { magic: 0x6C7276008816952D, v: false }; // a data frame built with G_FCNT.v was handed to the radio, counter not advanced yet
 static mut G_HANDED: Uq<u32> = Uq { magic: 0x6C7276001CCDA520, v: 0 }; // TxRequests seen by the radio in this step
 static mut G_IS_DATA: Uq<bool> = Uq { magic: 0x6C7276001089DF7D, v: false }; // the frame built in this step is a data frame
+static mut G_RX_RF: Uq<(u32, u8, bool)> = Uq { magic: 0x6C7276001089DF7E, v: (0, 0, false) }; // (frequency, max payload) Mac::handle_rx was given in this step
+static mut G_RXREQ: Uq<(u32, u8, bool)> = Uq { magic: 0x6C7276001089DF7F, v: (0, 0, false) }; // (frequency, max payload) of the RxRequest the radio saw in this step
 
 fn any_rf() -> radio::RfConfig {
     radio::RfConfig {
@@ -54,6 +56,7 @@ fn stub_handle_rx<const N: usize, const D: usize>(
     _m: &mut Mac, _buf: &mut RadioBuffer<N>, _dl: &mut Vec<Downlink, D>, _snr: i8, _rf: &radio::RfConfig,
 ) -> macm::Response {
     unsafe {
+        G_RX_RF.v = (_rf.frequency, _rf.max_payload_len, true);
         if kani::any() {
             macm::Response::NoUpdate
         } else if G_FCNT.v == u32::MAX {
@@ -104,6 +107,9 @@ impl radio::PhyRxTx for NbRadio {
                     G_INFLIGHT.v = true;
                 }
             }
+        }
+        if let radio::Event::RxRequest(rf) = &event {
+            unsafe { G_RXREQ.v = (rf.frequency, rf.max_payload_len, true); }
         }
         if kani::any() {
             return Err(());
@@ -172,6 +178,8 @@ fn nb_step(st: u8) {
         // invariant I-cnt: Idle => nothing in flight; otherwise a data frame may be in flight
         G_INFLIGHT.v = if st == 0 { false } else { is_data && kani::any() };
         G_EXPIRED.v = false;
+        G_RX_RF.v = (0, 0, false);
+        G_RXREQ.v = (0, 0, false);
     }
     let inflight0 = unsafe { G_INFLIGHT.v };
     let windows = any_windows();
@@ -219,6 +227,27 @@ fn nb_step(st: u8) {
     if st == 3 {
         if let (State::WaitingForRx(w), Ok(Response::NoUpdate)) = (&next, &result) {
             crate::vcheck!(w.rf_config == rf && w.rx_windows.rx1 == windows.rx1 && w.rx_windows.rx2 == windows.rx2, "C07: NoUpdate keeps the receive window and its configuration");
+        }
+    }
+    // ---- C05/C10: a received frame is judged against the parameters of the window it was received
+    // in, and each window is opened with the parameters bound to the uplink at TX time
+    unsafe {
+        if st == 3 && G_RX_RF.v.2 {
+            crate::vcheck!(G_RX_RF.v.0 == rf.frequency && G_RX_RF.v.1 == rf.max_payload_len, "C05: a received frame is judged against the parameters (maximum size) of the window it was received in");
+        }
+        if st == 2 {
+            let want = match window { Rx::_1(_) => windows.rx1, Rx::_2(_) => windows.rx2 };
+            if G_RXREQ.v.2 {
+                crate::vcheck!(G_RXREQ.v.0 == want.frequency && G_RXREQ.v.1 == want.max_payload_len, "C10: each receive window is opened with the parameters bound to the uplink at TX time");
+            }
+            if let State::WaitingForRx(n) = &next {
+                crate::vcheck!(n.rf_config == want && G_RXREQ.v.2, "C05/C10: the open window remembers the parameters it was opened with");
+            }
+        }
+        if st == 3 {
+            if let (State::WaitingForRxWindow(_), true) = (&next, G_RXREQ.v.2) {
+                crate::vcheck!(false, "C10: RX2 is opened by its own timeout, not while closing RX1");
+            }
         }
     }
     // ---- C10: window timing
